@@ -145,6 +145,25 @@ func (p *Prog) Func(rel, name string) *types.Func {
 	if f == nil {
 		f = p.funcByFingerprint(rel, name)
 	}
+	if f == nil {
+		// a method whose unused receiver was dropped (or a function that became a method of the package's one type
+		// that has it): same package, same bare name, exactly one candidate
+		if i := strings.Index(name, "."); i >= 0 {
+			f = p.funcByName(rel, name[i+1:])
+		} else if pk := p.Pkg(rel); pk != nil {
+			var cands []*types.Func
+			for _, tn := range pk.Types.Scope().Names() {
+				if t, ok := pk.Types.Scope().Lookup(tn).(*types.TypeName); ok {
+					if m := p.funcByName(rel, t.Name()+"."+name); m != nil {
+						cands = append(cands, m)
+					}
+				}
+			}
+			if len(cands) == 1 {
+				f = cands[0]
+			}
+		}
+	}
 	if p.funcMemo == nil {
 		p.funcMemo = map[string]*types.Func{}
 	}
